@@ -474,6 +474,11 @@ def deco_text(rng: random.Random, mode: str, i: int) -> tuple[str, str, list[tup
 				labels.add(label)
 		if value == '':
 			value = 'v'  # an argument is never empty (`k=` would end in the delimiter: the boundary rule makes it positional)
+		if label is not None and rng.random() < 0.45:
+			# a labelled value may itself contain top-level `=` (`cond=x==y`, `key=lambda a=1: a`, `a=b=c`): the label ends at the FIRST one
+			right = render([it for it in gen_items(rng, i % 3, mode, 1 + i % 2, 0.2) if not (it[0] == 'a' and (',' in it[1] or '=' in it[1]))]).strip(' ') or 'w'
+			op = rng.choice(['==', '!=', ' == ', '=', ':=', ' = ', '= ='])
+			value = f'lambda a=1: {value}' if rng.random() < 0.2 else f'{value}{op}{right}'
 		args.append((label, value))
 	sep = ', ' if rng.random() < 0.8 else ','
 	joined = sep.join(v if l is None else f'{l}={v}' for l, v in args)
@@ -868,6 +873,8 @@ def check_decorator(text: str, path: str, args: list[tuple[str | None, str]]) ->
 		return None
 	if len(got_args) < len(args) and any(any(c in SPECIAL for c in body) for body in string_bodies(join_args)):
 		key = 'decorator:bracket-or-quote-in-string-merges-arguments'
+	elif any(l is not None and any(c == '=' and t for c, t in zip(v, scan(v)[1])) for l, v in args):
+		key = 'decorator:labelled-value-with-top-level-equals'
 	elif any(l is None and '=' in v for l, v in args):
 		key = 'decorator:equals-inside-positional-argument-taken-as-label'
 	else:
@@ -900,6 +907,10 @@ def search_decorator(ctx: Ctx) -> SearchResult:
 	witnesses = [
 		('a.b("(", x)', 'a.b', [(None, '"("'), (None, 'x')]),
 		('a.b(g(k=1))', 'a.b', [(None, 'g(k=1)')]),
+		('f(a=b=c)', 'f', [('a', 'b=c')]),
+		('a.b(cond=x==y)', 'a.b', [('cond', 'x==y')]),
+		('f(key=lambda a=1: a, z)', 'f', [('key', 'lambda a=1: a'), (None, 'z')]),
+		('f(ok=g(k=1)!=h("="))', 'f', [('ok', 'g(k=1)!=h("=")')]),
 	]
 	for text, path, args in witnesses:
 		res.cases += 1
@@ -926,7 +937,7 @@ def search_decorator(ctx: Ctx) -> SearchResult:
 def search_query(ctx: Ctx) -> SearchResult:
 	from rogw.tranp.view.helper.decorator import DecoratorHelper, DecoratorQuery
 	rng = ctx.sub_rng('law-query')
-	res = SearchResult('DecoratorHelper.any / any_args and DecoratorQuery.any / any_args / contains against the generated paths and argument texts')
+	res = SearchResult('DecoratorHelper.any / any_args / match / match_args and DecoratorQuery.any / any_args / contains / match / match_args against the generated paths and argument texts (CPython re as oracle for the two regex methods)')
 	hist: dict[str, int] = {}
 	seen: set[str] = set()
 	for i in range(ctx.scale(4000, 40000)):
@@ -952,6 +963,19 @@ def search_query(ctx: Ctx) -> SearchResult:
 			got = exc_enum(e)
 		want = ([d for d, pth in zip(decos, paths) if pth in probes], any(pth in probes for pth in paths), [d for d, j in zip(decos, joins) if subject in j],
 			[pth in probes for pth in paths], len(decos), decos)
+		# match / match_args / DecoratorQuery.match / match_args: regular expressions, CPython's `re` on the generated parts is the oracle
+		import re as _re
+		pattern = rng.choice([r'^[a-c]', r'\.', r'\(.*=.*\)', r'[XYZ_]+$', r'k\w*=', r'^$', r',\s', r'"[^"]*"', _re.escape(paths[0][:2])])
+		try:
+			q = DecoratorQuery.parse(decos)
+			got_re: Any = ([guarded(DecoratorHelper(d).match, pattern) for d in decos], [guarded(DecoratorHelper(d).match_args, pattern) for d in decos],
+				[h.decorator for h in guarded(q.match, pattern)], [h.decorator for h in guarded(q.match_args, pattern)])
+		except Exception as e:  # noqa: BLE001
+			got_re = exc_enum(e)
+		want_re = ([_re.search(pattern, d) is not None for d in decos], [_re.search(pattern, j) is not None for j in joins],
+			[d for d in decos if _re.search(pattern, d)], [d for d, j in zip(decos, joins) if _re.search(pattern, j)])
+		if got_re != want_re:
+			res.findings.append(Finding(key='query:match', what=f'DecoratorQuery({decos!r}) match/match_args({pattern!r}) = {got_re!r}, expected {want_re!r}', replay={'decorators': decos, 'pattern': pattern}))
 		if got != want:
 			res.findings.append(Finding(key='query:any-contains', what=f'DecoratorQuery({decos!r}): any/contains/any_args({probes!r}, {subject!r}) = {got!r}, expected {want!r}', replay={'decorators': decos, 'paths': probes, 'subject': subject}))
 		elif len(res.samples) < 2:
@@ -1218,7 +1242,7 @@ STATEMENTS: dict[str, str] = {
 	'caller_indexer_cvar_new': 'PatternParser.break_indexer(recv[key]) = (recv, key), pluck_cvar_new(Class(args)) = (Class, args)',
 	'bracket_spec_prefix': 'bracket_spec with ANY fragment in front of the group that has no top-level group of the kind (blanks, delimiters, strings, other-kind groups like g[(1)]): the delimiter-free second _analyze_entry finds the block\'s own bracket',
 	'decorator': 'DecoratorHelper._parse(path + "(" + render args + ")") = (path, dict built from exactly the top-level comma pieces of args, render args) for every path without "(" and every args fragment',
-	'decorator_piece_positional / decorator_piece_labelled': 'a piece without top-level "=" is stored verbatim under str(position) whatever "=" are nested in it; a piece label=value is stored as exactly the texts around its first top-level "="',
+	'decorator_piece_positional / decorator_piece_labelled': 'a piece without top-level "=" is stored verbatim under str(position) whatever "=" are nested in it; a piece label=value is stored as exactly the texts around its FIRST top-level "=" - the value may contain further top-level "=" (cond=x==y, a=b=c, key=lambda a=1: a)',
 	'decorator_positional': 'f(v) for a single positional argument v (no top-level "," or "="): {"0": v.strip()} - the former counterexample f(g(k=1)) is an instance',
 	'param_plain / param_unrestricted': 'Param.parse("t1 ... tn name [= default]") = (t1 ... tn joined by one blank, name, default.strip()) for non-empty tokens without top-level blank or "=" and EVERY default fragment (also with top-level "=": bool b = x == y)',
 	'bracket_spec / bracket_balanced / bracket_first': 'parse_bracket(name + group + tail) = [the group] + for every top-level group of the kind inside it: that group + its own top-level groups of the kind (pre-order, two levels = Entry.unders), for every inner fragment; hence every block is a whole balanced group and the first is the group itself',
@@ -1280,7 +1304,7 @@ def run(ctx: Ctx) -> int:
 		partial={
 			'proved (all fragments, unbounded nesting, induction on Frag)': 'splitting = exact top-level split (hence cuts only at top-level delimiters, rejoin up to blanks, balanced pieces) for fragments with arbitrary simple strings; last bracket group of prefix+group (strings may contain the other bracket kinds and quotes); error branch; skip; decorator path/join_args/pieces and the key/value of positional and labelled pieces; parameter type/name/default for every default fragment; parse_bracket = the groups two levels deep in pre-order; the production callers (throw / dict-comprehension / pluck / indexer / is_initializer_call; the former range splitting only as a statement about the helpers); DecoratorQuery.any / contains; termination of _parse/_parse_block/_analyze_entry on every text',
 			'formerly false, proved after the repairs 3111a97 d6d867d eb33d21 f350973': 'param_unrestricted, decorator_positional, sep_spec_dirty, bracket_first/bracket_spec; the old witnesses are replayed from corpus/C18 and by the searches and must pass',
-			'correspondence + search only': 'the parse_pair law ((key, value) texts per depth on dict-like fragments with blank-free pieces, incl. directly adjacent foreign groups: structure-side oracle + stream block-dictlike; parse_pair has no caller); DecoratorHelper.match / match_args (regular expressions, not modelled); multi-character delimiters without overlap (positive law not proved), empty delimiter, brackets arguments of other lengths, unbalanced text (correspondence)',
+			'correspondence + search only': 'the parse_pair law ((key, value) texts per depth on dict-like fragments with blank-free pieces, incl. directly adjacent foreign groups: structure-side oracle + stream block-dictlike; parse_pair has no caller); DecoratorHelper.match / match_args (regular expressions with caller-supplied patterns: no shipped pattern and no call site exists - the generated call-site scan finds none - so they are checked by search against CPython re only); multi-character delimiters without overlap (positive law not proved), empty delimiter, brackets arguments of other lengths, unbalanced text (correspondence)',
 		},
 		assumptions=[
 			'fragments are rendered with the ASCII bracket/quote characters of BlockParser._all_pair (generated table; the proofs are redone when it changes)',
